@@ -635,6 +635,15 @@ pub fn exec_line(case: &mut Case, l: &str) -> String {
     }
 }
 
+/// The seeds the find paths hand to the runtime (fix 801ca3a): a trailing empty placeholder is dropped.
+fn eff_seeds(seeds: &[Vec<u8>]) -> Vec<&[u8]> {
+    let mut v: Vec<&[u8]> = seeds.iter().map(|s| s.as_slice()).collect();
+    if v.last().is_some_and(|l| l.is_empty()) {
+        v.pop();
+    }
+    v
+}
+
 // ------------------------------------------------------------------------- plain-Rust oracles
 
 fn total(s: &[AcctSpec]) -> u128 {
@@ -684,6 +693,11 @@ fn oracle_init(rec: &mut Recorder, case_rent: (u64, u64), funder: Option<Pubkey>
         rec.fail(if short { "create_if_needed_data_shorter_than_discriminant_panics" } else { "init_panics" }, &format!("{l} -> panic"));
         return;
     }
+    // D12b (repaired by d51f9cb): if-needed on a non-System account with data shorter than the
+    // discriminant must be rejected with an error (never Ok, never a panic) and change nothing
+    if op.if_needed && t0.owner != Pubkey::new_from_array([0; 32]) && t0.data.len() < W && (!res.starts_with("err:") || before != after || log != "-") {
+        rec.fail("create_if_needed_short_data_not_rejected", &format!("{l} -> {ans}"));
+    }
     let initialized = t0.owner != Pubkey::new_from_array([0; 32]) || !t0.data.is_empty();
     if !op.if_needed && initialized && res.starts_with("ok") {
         rec.fail("create_on_initialized_succeeds", &format!("{l} -> {ans}"));
@@ -692,8 +706,8 @@ fn oracle_init(rec: &mut Recorder, case_rent: (u64, u64), funder: Option<Pubkey>
     if op.if_needed && properly {
         // errors that have nothing to do with the target's state (decided independently here)
         let seeds_mismatch = op.tseeds.as_ref().is_some_and(|raw| {
-            let seeds: Vec<&[u8]> = raw.0.iter().map(|s| s.as_slice()).collect();
-            Pubkey::find_program_address(&seeds, &PROGRAM_ID).0 != op.tgt
+            let seeds = eff_seeds(&raw.0);
+            seeds.len() < 16 && Pubkey::find_program_address(&seeds, &PROGRAM_ID).0 != op.tgt
         });
         let excused = (res == "err:Custom1002" && seeds_mismatch)
             || (res == "err:Custom1004" && no_funder)
@@ -710,8 +724,8 @@ fn oracle_init(rec: &mut Recorder, case_rent: (u64, u64), funder: Option<Pubkey>
         let tgt_can_sign = match &op.tseeds {
             None => t0.is_signer,
             Some(raw) => {
-                let seeds: Vec<&[u8]> = raw.0.iter().map(|s| s.as_slice()).collect();
-                raw.0.len() < 16 && raw.0.iter().all(|s| s.len() <= 32) && Pubkey::find_program_address(&seeds, &PROGRAM_ID).0 == op.tgt
+                let seeds = eff_seeds(&raw.0);
+                seeds.len() < 16 && raw.0.iter().all(|s| s.len() <= 32) && Pubkey::find_program_address(&seeds, &PROGRAM_ID).0 == op.tgt
             }
         };
         let fresh = t0.owner == Pubkey::new_from_array([0; 32]) && t0.data.is_empty() && t0.is_writable && tgt_can_sign;
@@ -744,7 +758,7 @@ fn oracle_init(rec: &mut Recorder, case_rent: (u64, u64), funder: Option<Pubkey>
         }
         // seeds given for a seeded account are the ones used to sign the creation
         if let Some(raw) = &op.tseeds {
-            let seeds: Vec<&[u8]> = raw.0.iter().map(|s| s.as_slice()).collect();
+            let seeds = eff_seeds(&raw.0);
             let (_, bump) = Pubkey::find_program_address(&seeds, &PROGRAM_ID);
             let mut swb = raw.0.clone();
             match swb.last_mut() {
@@ -818,10 +832,10 @@ fn oracle_clean_op(rec: &mut Recorder, case_rent: (u64, u64), op: CleanOp, other
     if total(before) >= 1u128 << 64 {
         return; // outside the property's quantifier
     }
-    // "an account with zero lamports is left alone": normalize / receive on a 0-lamport account must
-    // return Ok and change nothing (refund's InsufficientFunds on 0 lamports is documented, D13 notes).
+    // "an account with zero lamports is left alone": normalize / receive / refund (since 519a31c) on a
+    // 0-lamport account must return Ok and change nothing.
     // Only judged when the call reached the operation (set validation errors are not the operation's).
-    if (op.op == "normalize" || op.op == "receive") && find(before, &op.tgt).lamports == 0 && other.is_some() {
+    if op.op != "close" && find(before, &op.tgt).lamports == 0 && other.is_some() {
         let validation_err = ["err:Custom1000", "err:Custom1001", "err:Custom1003", "err:Custom9001", "err:AccountDataTooSmall", "err:InvalidAccountOwner"].contains(&res);
         // a BorshAccount cleanup legitimately re-serializes the value first: only balances are compared there
         let lam = |s: &[AcctSpec]| s.iter().map(|a| a.lamports).collect::<Vec<_>>();
@@ -888,8 +902,9 @@ fn oracle_clean_op(rec: &mut Recorder, case_rent: (u64, u64), op: CleanOp, other
             }
         }
         "refund" => {
-            if t1.lamports < rent {
-                // the literal reading of "refunding leaves at least that minimum" (D13)
+            if t1.lamports < rent && !(t0.lamports == 0 && t1.lamports == 0) {
+                // "refunding leaves at least that minimum" (a zero-lamport account is left alone);
+                // the first class is D13, repaired by 519a31c — a hard failure if it comes back
                 let class = if t0.lamports > 0 && t0.lamports < rent && t1.lamports == t0.lamports { "refund_rent_below_minimum_left_below" } else { "refund_leaves_below_minimum" };
                 rec.fail(class, &format!("{l}: {} -> {}, rent {rent}", t0.lamports, t1.lamports));
             }
@@ -1000,7 +1015,7 @@ fn key(n: u64) -> Pubkey {
 /// `h` lines for `find_program_address(seeds)`: bumps 255 down to the found one.
 pub fn h_lines(seeds: &[Vec<u8>]) -> (Vec<String>, Option<(Pubkey, u8)>) {
     let mut out = vec![];
-    if seeds.len() + 1 > 16 || seeds.iter().any(|s| s.len() > 32) {
+    if eff_seeds(seeds).len() + 1 > 16 || seeds.iter().any(|s| s.len() > 32) {
         return (out, None);
     }
     let flat: Vec<u8> = seeds.concat();
@@ -1066,7 +1081,12 @@ fn c12_case(id: usize, rng: &mut Rng, rent: (u64, u64), ty: &str, if_needed: boo
         (key(id as u64 * 4), "none".to_string())
     };
     // target
-    let tseeds: Vec<Vec<u8>> = if twist == 5 { vec![b"tgt".to_vec(), (id as u64).to_le_bytes().to_vec()] } else { vec![b"tgt".to_vec(), (id as u64).to_le_bytes().to_vec(), vec![]] };
+    let tseeds: Vec<Vec<u8>> = if twist == 12 {
+        // 15 real seeds + the placeholder: the runtime maximum next to the bump (fix 801ca3a)
+        let mut v: Vec<Vec<u8>> = (0..15u8).map(|i| vec![i, (id % 251) as u8]).collect();
+        v.push(vec![]);
+        v
+    } else if twist == 5 { vec![b"tgt".to_vec(), (id as u64).to_le_bytes().to_vec()] } else { vec![b"tgt".to_vec(), (id as u64).to_le_bytes().to_vec(), vec![]] };
     let (tkey, tseed_str) = if seeded_target {
         let (hl, found) = h_lines(&tseeds);
         lines.extend(hl);
@@ -1143,7 +1163,7 @@ fn c12_case(id: usize, rng: &mut Rng, rent: (u64, u64), ty: &str, if_needed: boo
     (header, lines)
 }
 
-const C12_RULE: &str = "grid: target state (0 lamports; pre-funded below/at/above rent; owned by the program with zero / set / wrong discriminant; owned by a third program with data shorter / longer than the discriminant, zero or non-zero; System-owned with data; program-owned with 0 lamports) x funder (plain signer, seeded signer; argument or context cache) x account type (zero-copy pod, zero-copy list, borsh, borsh with an EMPTY encoding) x carrier (funder plain / Box<funder>; target Init<X> / Box<Init<X>> / Init<Box<X>>) x Create / CreateIfNeeded x initial values (default + random) x 3 rent parameter sets x seeded / keypair target, each followed by the set's default cleanup (also after a FAILED init: the account must be left exactly as it was) and a second Create and CreateIfNeeded on the result; plus twists (read-only target, unsigned target, poor funder, unsigned funder, seeds without the bump slot, seeds of another address, missing funder cache, funder owned by a third program, funder with data, target funding itself, funder cache set twice) and PRNG-drawn mixes. A case is non-trivial when an init op issued a CPI, returned an error / panicked, or changed the world; distinct by case text hash.";
+const C12_RULE: &str = "grid: target state (0 lamports; pre-funded below/at/above rent; owned by the program with zero / set / wrong discriminant; owned by a third program with data shorter / longer than the discriminant, zero or non-zero; System-owned with data; program-owned with 0 lamports) x funder (plain signer, seeded signer; argument or context cache) x account type (zero-copy pod, zero-copy list, borsh, borsh with an EMPTY encoding) x carrier (funder plain / Box<funder>; target Init<X> / Box<Init<X>> / Init<Box<X>>) x Create / CreateIfNeeded x initial values (default + random) x 3 rent parameter sets x seeded / keypair target, each followed by the set's default cleanup (also after a FAILED init: the account must be left exactly as it was) and a second Create and CreateIfNeeded on the result; plus twists (read-only target, unsigned target, poor funder, unsigned funder, seeds without the bump slot, seeds of another address, missing funder cache, funder owned by a third program, funder with data, target funding itself, funder cache set twice, 15-seed seeded target) and PRNG-drawn mixes. A case is non-trivial when an init op issued a CPI, returned an error / panicked, or changed the world; distinct by case text hash.";
 
 pub fn run_c12(args: &Args) {
     let mut rec = Recorder::new(C12_RULE);
@@ -1183,7 +1203,7 @@ pub fn run_c12(args: &Args) {
         let ty = *rng.pick(&["zc16", "zclist", "borsh", "bunit"]);
         let vals = values(ty, &mut rng.fork(), 4);
         let val = rng.pick(&vals).clone();
-        let twist = if i % 3 == 0 { 0 } else { 1 + (rng.below(11) as usize) };
+        let twist = if i % 3 == 0 { 0 } else { 1 + (rng.below(12) as usize) };
         let (h, l) = c12_case(id, &mut rng.fork(), rent, ty, rng.chance(1, 2), rng.below(14) as usize, rng.chance(1, 2), rng.chance(1, 2), rng.chance(1, 2), &val, twist);
         run_case(&mut rec, &h, &l);
         rec.sample_current(5);
